@@ -246,9 +246,10 @@ func TestC06(t *testing.T) {
 				bound = 20000
 			}
 			reached := -1
+			infMode := r.Intn(3) // the whole run uses one in-flight class: idle, at the limit, above it
 			for i := 0; i < bound && !l.Dead; i++ {
 				l.Now += 1000
-				p, o := c.sample(l, tr, l.Now, rtt, r.Pick(0, p2(l), p2(l)+3), true)
+				p, o := c.sample(l, tr, l.Now, rtt, []int64{0, p2(l), p2(l) + 3}[infMode], true)
 				check(p, o)
 				f := floor
 				if kind == 2 && gradQueue(o.Est) > f {
